@@ -84,6 +84,16 @@ func genScript(rt *rapid.T) Script {
 	}
 	if s.Link.Kind == wire.InMem || s.Link.Kind == wire.Pipe {
 		s.CloseAfter = rapid.SampledFrom([]string{"", "", "sender", "receiver"}).Draw(rt, "close_after")
+		// A shape generated on purpose: the receiver is busy with a slow notification, behind it wait a call
+		// its caller has already given up and two or more notifications, and the sender closes (the receiver
+		// reads EOF with that backlog still queued): what is still dispatched keeps its order.
+		if s.Dir == "c2s" && rapid.IntRange(0, 5).Draw(rt, "eof_backlog_macro") == 0 {
+			s.Items = []Item{{Kind: "progress", DurMs: rapid.SampledFrom([]int{1000, 10000}).Draw(rt, "macro_dur")}, {Kind: "abandoned"}}
+			for i, k := 0, rapid.IntRange(2, 5).Draw(rt, "macro_tail"); i < k; i++ {
+				s.Items = append(s.Items, Item{Kind: rapid.SampledFrom([]string{"progress", "progress", "roots"}).Draw(rt, "macro_kind"), DurMs: rapid.SampledFrom([]int{0, 1, 5}).Draw(rt, "macro_tail_dur")})
+			}
+			s.CloseAfter = "sender"
+		}
 	}
 	return s
 }
